@@ -13,7 +13,7 @@ def make_bpseq(pairing, seq=None):
 
 
 def seq_of(pairing, seq=None):
-    return seq or "".join("ACGU"[i % 4] for i in range(len(pairing)))
+    return seq or "".join("ACGUacguNn"[(i * 7) % 10] for i in range(len(pairing)))
 
 
 # ------------------------------------------------------------------------------------------- C01
@@ -64,7 +64,7 @@ def c01_forward(pairing, seq=None, with_all=True, with_milp=True):
 def c01_converse(structure, seq=None):
     """balanced dot-bracket -> BPSEQ -> dot-bracket preserves the set of pairs"""
     from rnapolis.common import BpSeq, DotBracket
-    seq = seq or "".join("ACGU"[i % 4] for i in range(len(structure)))
+    seq = seq or "".join("ACGUacguNn"[(i * 7) % 10] for i in range(len(structure)))
     want = decode(structure)
     errs = []
     d = DotBracket.from_string(seq, structure)
